@@ -5,5 +5,5 @@ for d in seeded/*/; do
   n=$(basename $d); id=$(echo $n | cut -c1-3)
   [ -f $d/patch.diff ] || continue
   out=$(LINES_MAX=100000 tools/seed_try.sh $n $id 2>&1)
-  if echo "$out" | grep -q "^VIOLATION property=$id"; then echo "$n DETECTED"; elif echo "$out" | grep -q "ENGINE\|BUILD"; then echo "$n ERROR"; else echo "$n silent"; fi
+  if echo "$out" | grep -aq "^VIOLATION property=$id"; then echo "$n DETECTED"; elif echo "$out" | grep -aq "ENGINE\|BUILD"; then echo "$n ERROR"; else echo "$n silent"; fi
 done
